@@ -322,11 +322,15 @@ def find_children_for_parent(var_collector: Collector, parent_node: ParentNode, 
         return process_list_breadth_first(var_collector, parent_node, value)
     elif isinstance(value, Exception):
         return process_list_breadth_first(var_collector, parent_node, value.args)
-    elif hasattr(value, '__class__'):
-        return process_dict_breadth_first(parent_node, variable_type.__name__, value.__dict__, correct_names)
-    elif hasattr(value, '__dict__'):
-        return process_dict_breadth_first(parent_node, variable_type.__name__, value.__dict__)
     else:
+        # not every object has a __dict__ (e.g. bytes, objects using __slots__, locks, generators), and reading
+        # it can run user code - so we must not let this fail the whole snapshot
+        try:
+            value_dict = value.__dict__
+        except BaseException:
+            value_dict = None
+        if isinstance(value_dict, dict):
+            return process_dict_breadth_first(parent_node, variable_type.__name__, value_dict, correct_names)
         logging.debug("Unknown type processed %s", variable_type)
         return []
 
